@@ -390,6 +390,45 @@ def residual_at(expr, point, ctx=None):
     return ev.ev(expr)
 
 
+def section_paths(section_fn, max_paths=16, timeout_ms=4000):
+    """runs `section_fn` (which creates its own context and returns a list of obligations) under a
+    path executor, so that a branch of the code under test on a symbolic value is explored both
+    ways: returns [(obligations with the path condition appended, context)] per feasible path"""
+    ex = paths.Exec([], timeout_ms=timeout_ms)
+    orig_decide = ex.decide
+    state = {}
+
+    def decide(cond):
+        if state.get('ctx') is not S.C:
+            state.update(ctx=S.C, nc=0, nd=0)
+            for c_ in S.deg_domain():
+                ex.solver.add(c_)
+        for c_ in S.C.cons[state['nc']:]:
+            ex.solver.add(c_)
+        for c_ in S.C.dom[state['nd']:]:
+            ex.solver.add(c_)
+        state['nc'], state['nd'] = len(S.C.cons), len(S.C.dom)
+        return orig_decide(cond)
+    ex.decide = decide
+
+    def body():
+        state.clear()
+        obls = section_fn()
+        return obls, S.C
+    res, _ = ex.run(body, max_paths=max_paths)
+    out = []
+    for pr in res:
+        if pr.status == 'abort' and pr.out == 'INFEASIBLE':
+            continue
+        if pr.status != 'ok':
+            raise RuntimeError('a path could not be executed symbolically: %s' % (pr.out,))
+        obls, ctx = pr.out
+        for ob in obls:
+            ob.extra = list(ob.extra) + list(pr.pc)
+        out.append((obls, ctx))
+    return out
+
+
 class AReport:
     """glue between engine-A obligation batches and common.Run"""
 
